@@ -166,6 +166,8 @@ def replay_file(prop, path):
 def run_check(prop, tier, seed, a, t0):
     load_specs()
     os.environ.setdefault('PYVC_JOBS', '12')
+    if tier == 'thorough':
+        os.environ.setdefault('PYVC_BACKEND2', '1')       # every discharged query is re-checked by z3 4.8.12
     info = P.PROPS[prop]
     timeout_ms = 30000 if tier == 'quick' else 120000
     tasks = select(prop)
@@ -183,6 +185,7 @@ def run_check(prop, tier, seed, a, t0):
     functions = []
     assumptions = set()
     ob_records = []
+    b2 = {}
     replay_dir = os.path.join(HERE, 'out', 'replays', prop)
     os.makedirs(replay_dir, exist_ok=True)
     for r in results:
@@ -209,6 +212,9 @@ def run_check(prop, tier, seed, a, t0):
             solver_time += o['time_s']
             rec = {'name': o['name'], 'verdict': o['verdict'], 'time_s': o['time_s'], 'line': o['line'],
                    'backend': o['backend'], 'function': label}
+            if o.get('backend2'):
+                rec['backend2'] = o['backend2']
+                b2[o['backend2']['verdict']] = b2.get(o['backend2']['verdict'], 0) + 1
             ob_records.append(rec)
             if o['verdict'] == 'discharged':
                 n_dis += 1
@@ -365,6 +371,7 @@ def run_check(prop, tier, seed, a, t0):
         'functions_under_contract': functions,
         'obligation_list': ob_records[:400],
         'solver_time_s': round(solver_time, 3),
+        'second_backend': {'solver': '/usr/bin/z3 4.8.12 via SMT-LIB2 (thorough tier only)', 'verdicts': b2},
         'extraction_drops': 'docstrings; type annotations and cast(); calls of log.*/logging.*/warnings.*/print/pp/pf/'
                             'print_progress_bar/_print_summary',
         'evaluations': bounded['evaluations'] + scen_eval,
